@@ -1,5 +1,6 @@
 CONSTANTS
   LitPlusSet = {TRUE, FALSE}
+  Utf8Set = {TRUE, FALSE}
   MaxDepth = 3
   GenUnits <- CoreUnits
 INIT GenInit
